@@ -231,6 +231,18 @@ impl Engine {
     }
 
     pub fn add_client(&mut self, c: Client) -> usize {
+        if with(|w| w.keep_events) {
+            let ops: Vec<String> = c
+                .ops
+                .iter()
+                .map(|o| match o {
+                    Op::Send(b) => format!("Send({} bytes: {})", b.len(), crate::gen::show(&b[..b.len().min(70)])),
+                    other => format!("{other:?}"),
+                })
+                .collect();
+            let i = self.clients.len();
+            with(|w| w.note(format!("client {i} script ({:?}, slow_read={}): {ops:?}", c.frag, c.slow_read)));
+        }
         self.clients.push(c);
         self.clients.len() - 1
     }
@@ -456,10 +468,19 @@ impl Engine {
                 let pc = self.clients[i].pc as u64;
                 with(|w| w.hash_step(4, (i as u64) << 16 | pc));
                 self.do_client_step(i);
+                if with(|w| w.keep_events) {
+                    let (pc2, off) = (self.clients[i].pc, self.clients[i].off);
+                    with(|w| w.note(format!("client {i} step: script position {pc} -> {pc2} (offset {off})")));
+                }
             }
             Act::ClientRead(i) => {
                 with(|w| w.hash_step(5, i as u64));
+                let before = self.clients[i].received.len();
                 self.do_client_read(i);
+                if with(|w| w.keep_events) {
+                    let n = self.clients[i].received.len() - before;
+                    with(|w| w.note(format!("client {i} read {n} bytes (total {})", before + n)));
+                }
             }
             Act::Timer => {
                 with(|w| w.hash_step(6, 0));
